@@ -731,6 +731,15 @@ def concatenate(arrs, axis=0):
     return out
 
 
+def mem_positions(a: SArr):
+    """where each element (in row-major order of the logical index) lies in the underlying buffer"""
+    if a._view is None:
+        return list(range(a.size))
+    parent, pos = a._view
+    pp = mem_positions(parent)
+    return [pp[p] for p in pos]
+
+
 def transpose(a: SArr, perm=None):
     perm = list(reversed(range(a.ndim))) if perm is None else [int(p) % a.ndim for p in perm]
     if sorted(perm) != list(range(a.ndim)):
